@@ -172,11 +172,18 @@ func (d *DA) Get(_ context.Context, ids []coreda.ID, _ []byte) ([]coreda.Blob, e
 			d.failText = false
 			return nil, TextError("rpc error: code = Unknown desc = " + coreda.ErrHeightFromFuture.Error())
 		}
-		switch len(d.FetchLog) % 3 {
+		// transient failures of a fetch come in several kinds; all of them mean "retry this height" - also a listed id
+		// whose blob the endpoint cannot find right now ("blob: not found" on Get is NOT "nothing at this height":
+		// the listing said there are blobs; seed C09-H took the text for an empty height)
+		switch len(d.FetchLog) % 5 {
 		case 1:
 			return nil, coreda.ErrContextDeadline
 		case 2:
 			return nil, fmt.Errorf("fetching: %w", context.DeadlineExceeded)
+		case 3:
+			return nil, coreda.ErrBlobNotFound
+		case 4:
+			return nil, TextError("failed to get blobs: " + coreda.ErrBlobNotFound.Error())
 		}
 		return nil, errors.New("rpc failure while fetching")
 	}
